@@ -12,6 +12,7 @@ ap.add_argument('-only', default='')
 ap.add_argument('-limit', type=int, default=0)
 ap.add_argument('-ids', default='', help='comma list of mutant ids (as numbered after -only selection) to run')
 ap.add_argument('-append', action='store_true')
+ap.add_argument('-neutral', action='store_true', help='behaviour-preserving single-site rewrites (mutate -neutral): every check must stay silent; no tests are run')
 ap.add_argument('-out', default='/verif/selftest/mutation/results.tsv')
 a = ap.parse_args()
 env = dict(os.environ, GOFLAGS='-mod=mod', GOPROXY='off', GOSUMDB='off', GOTOOLCHAIN='local')
@@ -21,11 +22,11 @@ shutil.rmtree(base, ignore_errors=True); os.makedirs(base)
 # the campaign works on /repo's HEAD (git archive), not on its working tree, so that it can run while another tool has a patch applied there
 head = f'{base}/head'; os.makedirs(head)
 subprocess.run('git -C /repo archive HEAD | tar -x -C ' + head, shell=True, check=True)
-muts = [json.loads(l) for l in subprocess.run(['/verif/bin/mutate', head], capture_output=True, text=True).stdout.splitlines()]
+muts = [json.loads(l) for l in subprocess.run(['/verif/bin/mutate'] + (['-neutral'] if a.neutral else []) + [head], capture_output=True, text=True).stdout.splitlines()]
 sel = []; g = 0
 for m in muts:
     if a.only and not any(o in m['file'] for o in a.only.split(',')): continue
-    if m['file'].endswith('gsm7encoding/gsm7.go'):
+    if m['file'].endswith('gsm7encoding/gsm7.go') and not a.neutral:
         g += 1
         if g % a.gsm7_every: continue
     sel.append(m)
@@ -60,7 +61,9 @@ def worker(w):
             else:
                 r = subprocess.run(['/verif/bin/verifsa', 'multi', '-repo', repo, '-root', root], env=env, capture_output=True, text=True, timeout=600)
                 caught = [l.split()[1] for l in r.stdout.splitlines() if l.startswith('MULTI') and not l.endswith('rc=0')]
-                if caught:
+                if a.neutral:
+                    verdict, detail = ('FALSE-ALARM', ' '.join(caught)) if caught else ('silent', '')
+                elif caught:
                     verdict, detail = 'caught', ' '.join(caught)
                 else:
                     pkg = './' + os.path.dirname(m['file']) if os.path.dirname(m['file']) else '.'
